@@ -142,3 +142,11 @@ text("C17",
      "seeded concurrent programs over (a) common.DeadlineChan (Send/Recv/SetDeadline/Cancel/Close, capacities 0/1/3), (b) transport.Client against a live or a silent server (Handshake/Read/ReadMsg/Write/WriteMsg/Set*Deadline/Close), (c) a server Handle, (d) a Server (Serve/AcceptTimeout/Close racing incoming handshakes), in both handshake modes, with and without the race detector (halt_on_error); invoke/return events are recorded lock-free with the simulator's event sequence number and checked with porcupine against a FIFO-with-close model (values, order, at-most-once, end-of-stream only after close and after everything queued before it; timeouts permitted at any time); further oracles: every call returns within 30 simulated seconds of the releasing Close, a handshake against a silent server returns by its own HSTimeout, all Close callers get the same result, Write fails after Close, only end-of-stream/timeout class errors, no goroutine left at the end",
      TB + "; the history recorder and the yield hook are norace functions over preallocated arrays, the simulated network is an actor, so the harness adds no happens-before edge between goroutines of the system; porcupine Unknown (timeout) is inconclusive and never reported",
      "deterministic simulation with fault injection (seeded schedule perturbation + race detector + porcupine linearizability check of recorded histories)", "DESIGN.md 4 C17")
+
+add("C09", "exploration",
+    [{"name": "tube-isolation", "quick_s": 40, "thorough_s": 900}],
+    real=["tubes (Muxer demultiplexing, id choice, reaping, Reliable, Unreliable, frames)"],
+    stub=["transport session under the muxers (simulated MsgConn pair)"])
+text("C09",
+     "seeded concurrent open/write/close/reopen programs from both muxer roles (several opener workers per side, reliable and unreliable tubes of drawn types, far more opens than live tubes so identifiers are reused) under delay, reordering, duplication, loss and late-packet faults (long delays and verbatim late replays of up to several seconds); every tube INSTANCE has a unique tag and every 64-byte stream cell / every unreliable message carries tag, offset, id, reliability and type; oracle: everything an instance reads comes from exactly one instance on the other side with the same id and reliability (violations are attributed: cross-id, cross-reliability, stale-after-reuse/{reliable,unreliable}, own-data-echoed), Create returns identifiers of the muxer's parity that are not in use, accepted tubes have the peer's parity, Accept never returns more tubes of (id, reliability) than the peer opened (ghost), unreliable reads return exactly one written message (length, header and tail pattern)",
+     TB, "deterministic simulation with fault injection (seeded reuse histories and late-packet schedules, instance-tag attribution oracle)", "DESIGN.md 4 C09")
